@@ -352,7 +352,7 @@ Definition no_stutter : Prop := forall i, (S i < length tr)%nat -> pc_at (S i) <
    once and leaves the patch in place *)
 Lemma step_over_core_once : forall bps m i b, no_stutter ->
   WF bps m -> (S i < length tr)%nat -> In b bps -> b_addr b = pc_at i ->
-  exists m', step_over_core code tr (proc_at m i) b = Ok (proc_at m' (S i), b) /\ WF bps m' /\
+  exists m', step_over_core code tr (proc_at m i) b = Ok (proc_at m' (S i), b, false) /\ WF bps m' /\
              (forall x, m' x = m x).
 Proof.
   intros bps m i b NS W Hi Hb Ha.
@@ -375,11 +375,11 @@ Proof.
   replace (p_alive (proc_at m1 (S i))) with true by (symmetry; unfold proc_at; cbn [p_alive]; apply Nat.ltb_lt; lia).
   replace (p_pc (proc_at m1 (S i))) with (pc_at (S i)) by reflexivity.
   destruct (pc_at (S i) =? pc_at i) eqn:Est. { apply N.eqb_eq in Est. exfalso. eapply NS; eauto. }
-  cbn [bind].
+  cbn [bind fst snd].
   assert (Hal2: p_alive (proc_at m1 (S i)) = true). { unfold proc_at; cbn [p_alive]. apply Nat.ltb_lt. lia. }
   destruct (bp_enable_ok (proc_at m1 (S i)) (bp_set b (b_saved b) false) Hal2) as (p2 & lo & E2 & Hlo & S2 & M2).
   { cbn [b_addr bp_set]. eapply wf_readable; eauto. }
-  rewrite E2. cbn [b_addr bp_set p_mem proc_at] in Hlo, M2.
+  rewrite E2. cbn [bind fst snd]. cbn [b_addr bp_set p_mem proc_at] in Hlo, M2.
   assert (Hlo': lo = b_saved b).
   { unfold m1 in Hlo. rewrite M1 in Hlo. rewrite N.eqb_refl in Hlo. congruence. }
   subst lo.
@@ -458,15 +458,43 @@ Proof.
   destruct Hex as (j & Hj & Ej & Hq). rewrite (next_hit_from_here B i j Hj Hq Ej) in H. discriminate.
 Qed.
 
+(* stepping over a breakpoint on the instruction that ends the process (repair c0ceee6): the
+   original instruction is executed, the step reports the exit, the breakpoint stays disabled *)
+Lemma step_over_core_exit : forall bps m i b,
+  WF bps m -> S i = length tr -> In b bps -> b_addr b = pc_at i ->
+  exists m1, step_over_core code tr (proc_at m i) b
+             = Ok (proc_at m1 (length tr), bp_set b (b_saved b) false, true).
+Proof.
+  intros bps m i b W Hi Hb Ha.
+  destruct (wf_bp _ _ W b Hb) as (He & Hs & Hr).
+  assert (Hi': (i < length tr)%nat) by lia.
+  assert (Hal: p_alive (proc_at m i) = true). { unfold proc_at; cbn [p_alive]. apply Nat.ltb_lt. lia. }
+  destruct (bp_disable_ok (proc_at m i) b Hal) as (p1 & E1 & S1 & M1).
+  { eapply wf_readable; eauto. }
+  unfold step_over_core. rewrite E1. cbn [bind fst snd].
+  set (m1 := p_mem p1).
+  assert (Hp1: p1 = proc_at m1 i).
+  { destruct p1 as [m1' a1 ps1 pc1 ex1]. destruct S1 as (A&B&C&D). cbn in *. subst. reflexivity. }
+  assert (W1: WF (del_bp (b_addr b) bps) m1).
+  { eapply wf_del; [exact W|]. intro x. unfold m1. rewrite M1. cbn [p_mem proc_at]. now rewrite Hs. }
+  rewrite Hp1. replace (p_pc (proc_at m1 i)) with (pc_at i) by reflexivity.
+  unfold fuel0. cbn [ModelBpMachine.single_step].
+  assert (Hn: ~ In (pc_at i) (addrs (del_bp (b_addr b) bps))).
+  { rewrite <- Ha. apply nodup_del, W. }
+  rewrite (cpu_step_exec _ _ _ W1 Hi' Hn). cbn [fst snd].
+  replace (p_alive (proc_at m1 (S i))) with false
+    by (symmetry; unfold proc_at; cbn [p_alive]; apply Nat.ltb_ge; lia).
+  cbn [bind fst snd]. rewrite Hi. exists m1. reflexivity.
+Qed.
+
 Record Steady (bps : list bp) (i : nat) : Prop := mk_Steady {
   st_types : forall b, In b bps -> b_ty b = TUser \/ b_ty b = TLinker \/ b_ty b = TEntry;
-  st_entry : forall b, In b bps -> b_ty b = TEntry -> forall k, (i <= k < length tr)%nat -> pc_at k <> b_addr b;
-  st_last : forall b, In b bps -> b_addr b <> pc_at (length tr - 1)
+  st_entry : forall b, In b bps -> b_ty b = TEntry -> forall k, (i <= k < length tr)%nat -> pc_at k <> b_addr b
 }.
 
 Lemma steady_mono : forall bps i j, Steady bps i -> (i <= j)%nat -> Steady bps j.
 Proof.
-  intros bps i j S Hij. constructor; [apply S| |apply S].
+  intros bps i j S Hij. constructor; [apply S|].
   intros b Hb Ht k Hk. apply (st_entry _ _ S b Hb Ht). lia.
 Qed.
 
@@ -509,9 +537,35 @@ Proof. intros. unfold set_pc. cbn [p_pc]. lia. Qed.
 Lemma trap_rewind : forall m j, set_pc (set_pc (proc_at m j) (pc_at j + 1)) (pc_at j) = proc_at m j.
 Proof. reflexivity. Qed.
 
-Definition exit_state (s : st) (m : mem) : st :=
-  let y := disable_all off (s_reg s) (proc_at m (length tr)) in
-  mk_st (fst y) (snd y) Exited (s_detached s) (s_external s) FReaped.
+(* what every way of seeing the program end leaves behind *)
+Definition ExitedOK (s' : st) : Prop :=
+  s_status s' = Exited /\ s_fate s' = FReaped /\ r_bps (s_reg s') = [] /\
+  p_exec (s_proc s') = tr /\ p_alive (s_proc s') = false.
+(* the exit is reported with the program's code: on_exit(exit_code) fired, either as the
+   DebugeeExit stop of `continue` or as Err(ProcessExit(exit_code)) of a step over the last instruction *)
+Definition exit_seen (r : cres) : Prop := r = CStop (StopExit exit_code) \/ r = CExitErr.
+
+Lemma disable_all_from_dead : forall l dis p, p_alive p = false -> snd (disable_all_from off l dis p) = p.
+Proof.
+  induction l as [|c t IHl]; intros dis p Hal; [reflexivity|].
+  cbn [disable_all_from]. rewrite (bp_disable_dead p c Hal). now apply IHl.
+Qed.
+
+Lemma exit_by_step_ok : forall s bps m1, ExitedOK (exit_by_step off s bps (proc_at m1 (length tr))).
+Proof.
+  intros. unfold ExitedOK, exit_by_step, disable_all. cbn [s_status s_fate s_reg s_proc fst snd r_bps r_dis].
+  rewrite disable_all_from_dead by (cbn [p_alive proc_at]; apply Nat.ltb_irrefl).
+  cbn [p_exec p_alive proc_at]. repeat split; auto using firstn_all, Nat.ltb_irrefl.
+Qed.
+
+Lemma exit_state_ok : forall s m1,
+  ExitedOK (let y := disable_all off (s_reg s) (proc_at m1 (length tr)) in
+            mk_st (fst y) (snd y) Exited (s_detached s) (s_external s) FReaped).
+Proof.
+  intros. unfold ExitedOK, disable_all. cbn [s_status s_fate s_reg s_proc fst snd r_bps].
+  rewrite disable_all_from_dead by (cbn [p_alive proc_at]; apply Nat.ltb_irrefl).
+  cbn [p_exec p_alive proc_at]. repeat split; auto using firstn_all, Nat.ltb_irrefl.
+Qed.
 
 (* C01 core: from position i, with a well-formed steady registry, the loop stops at the first
    position >= i whose address carries a USER breakpoint, reporting that pc and that number,
@@ -521,10 +575,10 @@ Lemma cont_steady : no_stutter -> forall fuel i m s,
   s_proc s = proc_at m i -> (i < length tr)%nat -> WF bps m -> Steady bps i -> (fuel > length tr - i)%nat ->
   match next_hit_from (uaddrs bps) (skipn i tr) i with
   | Some j => exists m' b, cont_loop code tr rbrk off has_place exit_code fuel s
-                           = Ok (with_bps s bps (proc_at m' j), StopBp (pc_at j) (b_num b)) /\
+                           = Ok (with_bps s bps (proc_at m' j), CStop (StopBp (pc_at j) (b_num b))) /\
                 find_bp (pc_at j) bps = Some b /\ b_ty b = TUser /\ WF bps m' /\ (forall x, m' x = m x)
-  | None => exists m', cont_loop code tr rbrk off has_place exit_code fuel s
-                           = Ok (exit_state s m', StopExit exit_code) /\ (forall x, m' x = m x)
+  | None => exists s' r, cont_loop code tr rbrk off has_place exit_code fuel s = Ok (s', r) /\
+                exit_seen r /\ ExitedOK s'
   end.
 Proof.
   intros NS fuel. induction fuel as [|f IH]; intros i m s bps Hp Hi W St Hf; [lia|].
@@ -546,13 +600,6 @@ Proof.
       rewrite (next_hit_from_here (uaddrs bps) i j Hj Hnu Hju).
       exists m, b. split; [reflexivity|]. split; [exact Eb|]. split; [exact Et|]. split; [exact W|reflexivity].
     + (* linker-map breakpoint: step over, go on *)
-      assert (HSj: (S j < length tr)%nat).
-      { pose proof (st_last _ _ St b Hb) as Hl. rewrite Hab in Hl.
-        destruct (Nat.eq_dec j (length tr - 1)) as [->|]; [congruence|lia]. }
-      unfold step_over_breakpoint. cbn [p_pc proc_at]. rewrite Eb.
-      destruct (wf_bp _ _ W b Hb) as (Hen & _). rewrite Hen.
-      destruct (step_over_core_once bps m j b NS W HSj Hb Hab) as (m' & Ec & W' & Hm').
-      rewrite Ec. cbn [bind fst snd]. rewrite (put_bp_same _ _ (wf_nodup _ _ W) Hb).
       assert (Hnj: memb (pc_at j) (uaddrs bps) = false).
       { apply not_true_is_false. intro H. apply memb_iff in H. apply uaddrs_in in H.
         destruct H as [c (Hc & Htc & Hac)].
@@ -561,15 +608,25 @@ Proof.
       { intros k Hk. destruct (Nat.eq_dec k j) as [Ekj|Ekj]; [rewrite Ekj; exact Hnj|apply Hnu; lia]. }
       assert (Hisj: (i <= S j <= length tr)%nat) by lia.
       rewrite (next_hit_from_skip (uaddrs bps) i (S j) Hisj Hnu').
-      specialize (IH (S j) m' (with_bps s bps (proc_at m' (S j)))).
-      cbn [with_bps with_rp s_reg s_proc r_bps] in IH.
-      assert (Hle: (i <= S j)%nat) by lia. assert (Hfu: (f > length tr - S j)%nat) by lia.
-      specialize (IH eq_refl HSj W' (steady_mono _ _ _ St Hle) Hfu).
-      destruct (next_hit_from (uaddrs bps) (skipn (S j) tr) (S j)) as [j'|].
-      * destruct IH as (m'' & b' & E & F & T & W'' & Hm''). exists m'', b'.
-        split; [exact E|]. split; [exact F|]. split; [exact T|]. split; [exact W''|].
-        intro x. rewrite Hm''. apply Hm'.
-      * destruct IH as (m'' & E & Hm''). exists m''. split; [exact E|]. intro x. rewrite Hm''. apply Hm'.
+      unfold step_over_breakpoint. cbn [p_pc proc_at]. rewrite Eb.
+      destruct (wf_bp _ _ W b Hb) as (Hen & _). rewrite Hen.
+      destruct (Nat.eq_dec (S j) (length tr)) as [Elast|Elast].
+      * (* it sits on the last instruction: the step ends the process *)
+        destruct (step_over_core_exit bps m j b W Elast Hb Hab) as (m1 & Ec).
+        rewrite Ec. cbn [bind fst snd]. rewrite Elast, skipn_all. cbn [next_hit_from].
+        eexists. eexists. split; [reflexivity|]. split; [right; reflexivity|apply exit_by_step_ok].
+      * assert (HSj: (S j < length tr)%nat) by lia.
+        destruct (step_over_core_once bps m j b NS W HSj Hb Hab) as (m' & Ec & W' & Hm').
+        rewrite Ec. cbn [bind fst snd]. rewrite (put_bp_same _ _ (wf_nodup _ _ W) Hb).
+        specialize (IH (S j) m' (with_bps s bps (proc_at m' (S j)))).
+        cbn [with_bps with_rp s_reg s_proc r_bps] in IH.
+        assert (Hle: (i <= S j)%nat) by lia. assert (Hfu: (f > length tr - S j)%nat) by lia.
+        specialize (IH eq_refl HSj W' (steady_mono _ _ _ St Hle) Hfu).
+        destruct (next_hit_from (uaddrs bps) (skipn (S j) tr) (S j)) as [j'|].
+        -- destruct IH as (m'' & b' & E & F & T & W'' & Hm''). exists m'', b'.
+           split; [exact E|]. split; [exact F|]. split; [exact T|]. split; [exact W''|].
+           intro x. rewrite Hm''. apply Hm'.
+        -- exact IH.
     + (* entry point reached again: excluded by Steady *)
       exfalso. apply (st_entry _ _ St b Hb Et j); [lia|]. congruence.
   - (* no patched address ahead: runs to the exit *)
@@ -579,12 +636,12 @@ Proof.
     { intros k Hk. apply not_true_is_false. intro H. apply memb_iff in H. apply uaddrs_sub in H.
       apply memb_iff in H. rewrite (next_hit_none_trace _ _ Hil En k Hk) in H. discriminate. }
     rewrite (next_hit_from_none (uaddrs bps) i Hil Hnone).
-    exists m. split; [reflexivity|auto].
+    eexists. eexists. split; [reflexivity|]. split; [left; reflexivity|apply exit_state_ok].
 Qed.
 
 (* ---------- C01: continue from a prompt ---------- *)
 (* a prompt of a running debuggee: position i, well-formed registry, no temporaries, the entry
-   point is behind us, no breakpoint on the instruction that ends the process *)
+   point is behind us *)
 Record Prompt (s : st) (i : nat) (m : mem) : Prop := mk_Prompt {
   pr_status : s_status s = InProgress;
   pr_proc : s_proc s = proc_at m i;
@@ -597,63 +654,61 @@ Theorem C01_continue : no_stutter -> forall s i m, Prompt s i m ->
   let bps := r_bps (s_reg s) in
   match next_hit tr (uaddrs bps) (S i) with
   | Some j => exists m' b s', continue_execution code tr rbrk off has_place exit_code s
-                                = Ok (s', StopBp (pc_at j) (b_num b)) /\
+                                = Ok (s', CStop (StopBp (pc_at j) (b_num b))) /\
                 find_bp (pc_at j) bps = Some b /\ b_ty b = TUser /\
                 r_bps (s_reg s') = bps /\ Prompt s' j m' /\ (forall x, m' x = m x)
-  | None => exists s', continue_execution code tr rbrk off has_place exit_code s = Ok (s', StopExit exit_code) /\
-                s_status s' = Exited /\ s_fate s' = FReaped /\ r_bps (s_reg s') = [] /\
-                p_exec (s_proc s') = tr
+  | None => exists s' r, continue_execution code tr rbrk off has_place exit_code s = Ok (s', r) /\
+                exit_seen r /\ ExitedOK s'
   end.
 Proof.
   intros NS s i m [Hst Hp Hi W St] bps. unfold continue_execution. rewrite Hst.
-  (* where the loop starts: S i after stepping over a breakpoint at pc, i otherwise *)
-  assert (Hstart: exists i0 m0, (i <= i0 <= S i)%nat /\ (i0 < length tr)%nat /\
-            step_over_breakpoint code tr (r_bps (s_reg s)) (s_proc s) = Ok (bps, proc_at m0 i0) /\
-            WF bps m0 /\ (forall x, m0 x = m x) /\
-            (i0 = i -> ~ In (pc_at i) (addrs bps))).
-  { unfold step_over_breakpoint. rewrite Hp. cbn [p_pc proc_at]. fold bps.
-    destruct (find_bp (pc_at i) bps) as [b|] eqn:Eb.
-    - destruct (find_bp_some _ _ _ Eb) as [Hb Hab].
-      destruct (wf_bp _ _ W b Hb) as (Hen & _). rewrite Hen.
-      assert (HSi: (S i < length tr)%nat).
-      { pose proof (st_last _ _ St b Hb) as Hl. rewrite Hab in Hl.
-        destruct (Nat.eq_dec i (length tr - 1)) as [Ei|]; [rewrite Ei in Hl; congruence|lia]. }
+  unfold step_over_breakpoint. rewrite Hp. cbn [p_pc proc_at]. fold bps.
+  (* the loop from position i0 *)
+  assert (Hloop: forall i0 m0, (i <= i0 <= S i)%nat -> (i0 < length tr)%nat -> WF bps m0 -> (forall x, m0 x = m x) ->
+            (i0 = i -> ~ In (pc_at i) (addrs bps)) ->
+            match next_hit tr (uaddrs bps) (S i) with
+            | Some j => exists m' b s', cont_loop code tr rbrk off has_place exit_code (loop_fuel tr)
+                                          (with_bps s bps (proc_at m0 i0))
+                                = Ok (s', CStop (StopBp (pc_at j) (b_num b))) /\
+                find_bp (pc_at j) bps = Some b /\ b_ty b = TUser /\
+                r_bps (s_reg s') = bps /\ Prompt s' j m' /\ (forall x, m' x = m x)
+            | None => exists s' r, cont_loop code tr rbrk off has_place exit_code (loop_fuel tr)
+                                          (with_bps s bps (proc_at m0 i0)) = Ok (s', r) /\
+                exit_seen r /\ ExitedOK s'
+            end).
+  { intros i0 m0 Hi0 Hi0l W0 Hm0 Hnot.
+    assert (St0: Steady bps i0) by (eapply steady_mono; [exact St|lia]).
+    pose proof (cont_steady NS (loop_fuel tr) i0 m0 (with_bps s bps (proc_at m0 i0))) as C.
+    cbn [with_bps with_rp s_reg s_proc r_bps] in C.
+    assert (Hfu: (loop_fuel tr > length tr - i0)%nat) by (unfold loop_fuel; lia).
+    specialize (C eq_refl Hi0l W0 St0 Hfu).
+    assert (Hsame: next_hit_from (uaddrs bps) (skipn i0 tr) i0 = next_hit tr (uaddrs bps) (S i)).
+    { unfold next_hit. destruct (Nat.eq_dec i0 i) as [E0|E0].
+      - subst i0. apply next_hit_from_skip; [lia|]. intros k Hk. assert (k = i) by lia. subst k.
+        apply not_true_is_false. intro H. apply memb_iff in H. apply uaddrs_sub in H. now apply Hnot.
+      - assert (i0 = S i) by lia. now subst. }
+    rewrite <- Hsame.
+    destruct (next_hit_from (uaddrs bps) (skipn i0 tr) i0) as [j|] eqn:En.
+    - destruct C as (m' & b & E & F & T & W' & Hm').
+      apply next_hit_trace in En; [|lia]. destruct En as (Hj & _).
+      exists m', b. eexists. split; [exact E|]. split; [exact F|]. split; [exact T|]. split; [reflexivity|].
+      split; [|intro x; rewrite Hm'; apply Hm0].
+      constructor; cbn [with_bps with_rp s_status s_proc s_reg r_bps]; auto; [lia|].
+      eapply steady_mono; [exact St|lia].
+    - exact C. }
+  destruct (find_bp (pc_at i) bps) as [b|] eqn:Eb.
+  - destruct (find_bp_some _ _ _ Eb) as [Hb Hab].
+    destruct (wf_bp _ _ W b Hb) as (Hen & _). rewrite Hen.
+    destruct (Nat.eq_dec (S i) (length tr)) as [Elast|Elast].
+    + (* a breakpoint on the instruction that ends the process: continuing reports the exit *)
+      destruct (step_over_core_exit bps m i b W Elast Hb Hab) as (m1 & Ec).
+      rewrite Ec. cbn [bind fst snd]. unfold next_hit. rewrite Elast, skipn_all. cbn [next_hit_from].
+      eexists. eexists. split; [reflexivity|]. split; [right; reflexivity|apply exit_by_step_ok].
+    + assert (HSi: (S i < length tr)%nat) by lia.
       destruct (step_over_core_once bps m i b NS W HSi Hb Hab) as (m' & Ec & W' & Hm').
       rewrite Ec. cbn [bind fst snd]. rewrite (put_bp_same bps b (wf_nodup _ _ W) Hb).
-      exists (S i), m'. split; [lia|]. split; [exact HSi|]. split; [reflexivity|]. split; [exact W'|].
-      split; [exact Hm'|]. intro Hc. lia.
-    - exists i, m. split; [lia|]. split; [exact Hi|]. split; [reflexivity|]. split; [exact W|].
-      split; [reflexivity|]. intros _. now apply find_bp_none. }
-  destruct Hstart as (i0 & m0 & Hi0 & Hi0l & Eso & W0 & Hm0 & Hnot). rewrite Eso. cbn [bind fst snd].
-  assert (St0: Steady bps i0) by (eapply steady_mono; [exact St|lia]).
-  pose proof (cont_steady NS (loop_fuel tr) i0 m0 (with_bps s bps (proc_at m0 i0))) as C.
-  cbn [with_bps with_rp s_reg s_proc r_bps] in C.
-  assert (Hfu: (loop_fuel tr > length tr - i0)%nat) by (unfold loop_fuel; lia).
-  specialize (C eq_refl Hi0l W0 St0 Hfu).
-  (* the hit computed from i0 is the hit computed from S i *)
-  assert (Hsame: next_hit_from (uaddrs bps) (skipn i0 tr) i0 = next_hit tr (uaddrs bps) (S i)).
-  { unfold next_hit. destruct (Nat.eq_dec i0 i) as [E0|E0].
-    - subst i0. apply next_hit_from_skip; [lia|]. intros k Hk. assert (k = i) by lia. subst k.
-      apply not_true_is_false. intro H. apply memb_iff in H. apply uaddrs_sub in H. now apply Hnot.
-    - assert (i0 = S i) by lia. now subst. }
-  rewrite <- Hsame.
-  destruct (next_hit_from (uaddrs bps) (skipn i0 tr) i0) as [j|] eqn:En.
-  - destruct C as (m' & b & E & F & T & W' & Hm').
-    apply next_hit_trace in En; [|lia]. destruct En as (Hj & _).
-    exists m', b. eexists. split; [exact E|]. split; [exact F|]. split; [exact T|]. split; [reflexivity|].
-    split; [|intro x; rewrite Hm'; apply Hm0].
-    constructor; cbn [with_bps with_rp s_status s_proc s_reg r_bps]; auto; [lia|].
-    eapply steady_mono; [exact St|lia].
-  - destruct C as (m' & E & Hm'). eexists. split; [exact E|].
-    unfold exit_state. cbn [s_status s_fate s_reg s_proc]. split; [reflexivity|]. split; [reflexivity|].
-    unfold disable_all. cbn [fst snd r_bps]. split; [reflexivity|].
-    (* every disable fails on the dead process: the process record is untouched *)
-    assert (Hd: forall l dis p, p_alive p = false -> snd (disable_all_from off l dis p) = p).
-    { induction l as [|c t IHl]; intros dis p Hal; [reflexivity|].
-      cbn [disable_all_from]. rewrite (bp_disable_dead p c Hal). now apply IHl. }
-    rewrite Hd.
-    + cbn [p_exec proc_at]. apply firstn_all.
-    + cbn [p_alive proc_at]. apply Nat.ltb_irrefl.
+      apply Hloop; auto; lia.
+  - cbn [bind fst snd]. apply Hloop; auto; try lia. intros _. now apply find_bp_none.
 Qed.
 
 Lemma filter_id : forall {A} (f : A -> bool) l, (forall x, In x l -> f x = true) -> filter f l = l.
@@ -676,12 +731,11 @@ Proof. intros s i m P. rewrite (pr_proc _ _ _ P). cbn. auto. Qed.
 (* break <addr> at a prompt *)
 Theorem add_prompt : forall s i m a c,
   Prompt s i m -> mapped code a = true -> has_place a = true -> readable code a -> code a = Some c ->
-  a <> pc_at (length tr - 1) ->
   exists s' m', add_at_addr code has_place s a = (s', OAdded (r_next (s_reg s))) /\ Prompt s' i m' /\
     r_bps (s_reg s') = ins_bp (mk_bp a (r_next (s_reg s)) c true TUser) (r_bps (s_reg s)) /\
     (forall x, m' x = if x =? a then Some INT3 else m x).
 Proof.
-  intros s i m a c [Hst Hp Hi W St] Hm Hpl Hr Hc Hlast. unfold add_at_addr. rewrite Hst, Hm, Hpl. cbn [andb].
+  intros s i m a c [Hst Hp Hi W St] Hm Hpl Hr Hc. unfold add_at_addr. rewrite Hst, Hm, Hpl. cbn [andb].
   assert (Hal: p_alive (s_proc s) = true). { rewrite Hp. cbn [p_alive proc_at]. now apply Nat.ltb_lt. }
   assert (W0: WF (r_bps (s_reg s)) (p_mem (s_proc s))). { rewrite Hp. exact W. }
   destruct (add_and_enable_ok (r_bps (s_reg s)) (s_proc s) (mk_bp a (r_next (s_reg s)) 0 false TUser) c W0 Hal Hr Hc)
@@ -693,7 +747,6 @@ Proof.
     + constructor.
       * intros b [Hb|Hb]; [subst b; cbn; auto|]. apply in_del_bp in Hb. apply (st_types _ _ St). tauto.
       * intros b [Hb|Hb] Ht; [subst b; cbn in Ht; discriminate|]. apply in_del_bp in Hb. apply (st_entry _ _ St); tauto.
-      * intros b [Hb|Hb]; [subst b; cbn; exact Hlast|]. apply in_del_bp in Hb. apply (st_last _ _ St). tauto.
   - intro x. rewrite M'. rewrite Hp. reflexivity.
 Qed.
 
@@ -722,7 +775,6 @@ Proof.
       * constructor.
         -- intros c Hc. apply in_del_bp in Hc. apply (st_types _ _ St). tauto.
         -- intros c Hc. apply in_del_bp in Hc. apply (st_entry _ _ St). tauto.
-        -- intros c Hc. apply in_del_bp in Hc. apply (st_last _ _ St). tauto.
     + split; [rewrite HM, N.eqb_refl; reflexivity|]. intros y Hy. rewrite HM. apply N.eqb_neq in Hy. now rewrite Hy.
   - cbn [fst snd]. exists m. eexists. split; [reflexivity|].
     pose proof (find_bp_none _ _ Eb) as Hn.
